@@ -40,6 +40,10 @@ CHECKS = {
    text="seeded structurally valid pcap / pcapng / snoop inputs (harness-built, both byte orders, every field a named mutation target) with boundary-value field corruptions, random tails, truncations and gzip wrapping are read through fault-free, chunked and failing simulated streams with the copying and zero-copy calls; oracles: no panic, no spin at EOF, allocation per call in proportion to bytes present plus declared snap length, data length == capture length <= length, results independent of chunking, prefix property and surfacing of an injected read error. The thorough tier sweeps every error offset for inputs up to 512 bytes.",
    note="trusted: harness file builders and oracles; allocation measured with runtime/metrics and confirmed with runtime.ReadMemStats before it is reported; CPU-bound infinite loops that never touch the stream are only caught by the parent watchdog (exit 2)",
    tech="deterministic simulation of the byte stream with short-read, data+EOF and read-error injection over seeded structure-aware corruptions"),
+ "C16": dict(cat="exploration", engine="bubble", ref="4 C16",
+   text="the real PacketSource, including its background goroutine, channel, retry sleeps and context handling, runs inside a testing/synctest bubble (fake clock, durable-blocking detection); a tape-driven controller releases one actor at a time (data source result, consumer step, cancellation, clock advance) and checks once-in-order-intact delivery with capture metadata and truncation flag, retry within 5 ms of simulated time after transient errors, channel closed and source never read again after end of input, no new read and a closed channel after cancellation, refusal of zero-copy + NoCopy on the channel interface, and no goroutine left at the end of the bubble.",
+   note="trusted: harness actors and oracle; Go's select among ready cases is not owned (the packet in flight at cancellation is optional in the oracle); the data source is a stub, decoding uses gopacket.DecodePayload",
+   tech="deterministic simulation in a synctest bubble with gated actors, scripted source faults (timeouts, transient and terminal errors), cancellation points and simulated clock"),
 }
 
 def main():
@@ -77,6 +81,7 @@ def main():
       "engines": [
         {"name": "des-defrag", "path": "props/defrag", "serves_properties": ["C13"], "kind_free_text": "single-threaded discrete-event simulation: fragmenting senders, lossy network, hostile injector, simulated clock; per-key reference model"},
         {"name": "sim-disk", "path": "sim/disk", "serves_properties": ["C14","C15"], "kind_free_text": "simulated file (write log, crash = cut at a byte) and simulated stream (seeded chunking, data+EOF, injected read error at an offset, post-EOF spin detection)"},
+        {"name": "bubble", "path": "sim/bubble", "serves_properties": ["C16","C20"], "kind_free_text": "testing/synctest bubble with gated actors: tape-driven controller releases one actor at a time and waits for durable blocking of every goroutine; fake clock"},
         {"name": "des-tcp", "path": "sim/tcpsim", "serves_properties": ["C09","C10","C11"], "kind_free_text": "single-threaded discrete-event simulation: TCP senders, lossy network, simulated clock, flush timers; reference delivery/lifecycle model"},
       ],
       "checks": checks,
